@@ -6,6 +6,7 @@
 package gen
 
 import (
+	"fmt"
 	"math/big"
 	"math/rand"
 
@@ -263,7 +264,7 @@ func (g *G) initCode() []byte {
 	ic := &code{}
 	switch g.R.Intn(7) {
 	case 0:
-		ic.pushN(1).pushN(0).op(0x55)                                  // SSTORE then fallthrough
+		ic.pushN(1).pushN(0).op(0x55)                                   // SSTORE then fallthrough
 		ic.push([]byte{0x60, 0x00, 0x60, 0x00, 0xf3}).pushN(0).op(0x52) // runtime at mem[27..32)
 		ic.pushN(5).pushN(27).op(0xf3)
 	case 1:
@@ -278,7 +279,7 @@ func (g *G) initCode() []byte {
 		ic.op(0x00) // empty runtime
 	default:
 		for i := 0; i < 3; i++ {
-			g.snippet(ic, 0)
+			g.snippet(ic, g.R.Intn(2))
 		}
 		ic.push([]byte{0x00}).pushN(0).op(0x53).pushN(1).pushN(0).op(0xf3)
 	}
@@ -305,6 +306,14 @@ func (g *G) createSnippet(c *code) {
 		c.pushN(uint64(g.R.Intn(3))).pushN(uint64(len(ic))).pushN(off).pushN(val).op(0xf5)
 	}
 	g.fin(c)
+	if g.R.Intn(2) == 0 {
+		// the return-data buffer after a create is observable too
+		c.op(0x3d)
+		g.fin(c)
+		if g.R.Intn(2) == 0 {
+			c.pushN(uint64(1 + g.R.Intn(32))).pushN(0).pushN(g.smallOff()).op(0x3e)
+		}
+	}
 }
 
 func (g *G) terminator(c *code) {
@@ -582,6 +591,180 @@ func Matrix() []*Program {
 					c.op(kind).pushN(32).op(0x52).op(0x3d).pushN(64).op(0x52).pushN(96).pushN(0).op(0xf3)
 					mk("matrix-call", c.b)
 					out[len(out)-1].Gas = 300_000
+				}
+			}
+		}
+	}
+	out = append(out, pairPrograms()...)
+	out = append(out, nestPrograms()...)
+	return out
+}
+
+// helper contract: returns 32 bytes (0x01 padded) and logs
+var helperB = []byte{0x60, 0x01, 0x60, 0x00, 0x52, 0x60, 0x20, 0x60, 0x00, 0xa0, 0x60, 0x20, 0x60, 0x00, 0xf3}
+
+func base(name string, body []byte) *Program {
+	return &Program{Name: name, Contracts: map[common.Address][]byte{CA: Sanitize(body), CB: helperB, CC: {0x60, 0x00, 0x60, 0x00, 0xfd}},
+		Balances: map[common.Address]*big.Int{EO: big.NewInt(1 << 50), CA: big.NewInt(1)}, Storage: map[common.Address]map[common.Hash]common.Hash{},
+		Entry: "call", To: CA, Input: []byte{9, 8, 7, 6}, Value: big.NewInt(0), Gas: 400_000}
+}
+
+// pairPrograms: every "state-setting" action followed by every "observing" action, so that state that one instruction
+// leaves behind for another (return-data buffer, touched/created accounts, warm sets, memory size, refunds) is enumerated
+// systematically instead of waiting for the random generator to line the two up.
+func pairPrograms() []*Program {
+	type act func(c *code)
+	call := func(kind byte, tgt common.Address, val uint64, gas int64) act {
+		return func(c *code) {
+			c.pushN(32).pushN(0x40).pushN(4).pushN(0)
+			if kind == 0xf1 || kind == 0xf2 {
+				c.pushN(val)
+			}
+			c.pushAddr(tgt)
+			if gas < 0 {
+				c.op(0x5a)
+			} else {
+				c.pushN(uint64(gas))
+			}
+			c.op(kind).pushN(0x7e0).op(0x51, 0x18).pushN(0x7e0).op(0x52)
+		}
+	}
+	create := func(op byte, ic []byte, val uint64) act {
+		return func(c *code) {
+			for i := 0; i < len(ic); i += 32 {
+				chunk := make([]byte, 32)
+				copy(chunk, ic[i:])
+				c.b = append(c.b, 0x7f)
+				c.b = append(c.b, chunk...)
+				c.pushN(0x400 + uint64(i)).op(0x52)
+			}
+			if op == 0xf5 {
+				c.pushN(5)
+			}
+			c.pushN(uint64(len(ic))).pushN(0x400).pushN(val).op(op).pushN(0x7e0).op(0x51, 0x18).pushN(0x7e0).op(0x52)
+		}
+	}
+	icOK := []byte{0x60, 0x00, 0x60, 0x00, 0x53, 0x60, 0x01, 0x60, 0x00, 0xf3}
+	icRevert := []byte{0x60, 0xaa, 0x60, 0x00, 0x52, 0x60, 0x20, 0x60, 0x00, 0xfd}
+	icInvalid := []byte{0xfe}
+	// init code that itself calls the helper (its return data must not leak into the creator)
+	icCalls := (&code{}).pushN(32).pushN(0).pushN(0).pushN(0).pushN(0).pushAddr(CB).op(0x5a, 0xf1, 0x50, 0x00).b
+	pre := common.BytesToAddress([]byte{4})
+	pre2 := common.BytesToAddress([]byte{2})
+	fresh := common.HexToAddress("0x00000000000000000000000000000000000f0005")
+	setters := map[string]act{
+		"call-B":         call(0xf1, CB, 0, -1),
+		"call-B-v1":      call(0xf1, CB, 1, -1),
+		"call-B-v9":      call(0xf1, CB, 9, -1), // insufficient balance
+		"call-revert":    call(0xf1, CC, 0, -1),
+		"call-nx":        call(0xf1, NX, 0, -1),
+		"call-nx-v1":     call(0xf1, NX, 1, -1),
+		"call-fresh":     call(0xf1, fresh, 0, -1),
+		"call-pre4":      call(0xf1, pre, 0, -1),
+		"call-pre2-g0":   call(0xf1, pre2, 0, 0),
+		"callcode-B":     call(0xf2, CB, 0, -1),
+		"delegate-B":     call(0xf4, CB, 0, -1),
+		"static-B":       call(0xfa, CB, 0, -1),
+		"static-nx":      call(0xfa, NX, 0, -1),
+		"static-fresh":   call(0xfa, fresh, 0, -1),
+		"static-pre4":    call(0xfa, pre, 0, -1),
+		"create-ok":      create(0xf0, icOK, 0),
+		"create-v9":      create(0xf0, icOK, 9), // insufficient balance: the frame is never entered
+		"create-revert":  create(0xf0, icRevert, 0),
+		"create-invalid": create(0xf0, icInvalid, 0),
+		"create-calls":   create(0xf0, icCalls, 0),
+		"create2-ok":     create(0xf5, icOK, 0),
+		"create2-calls":  create(0xf5, icCalls, 0),
+		"sstore-1":       func(c *code) { c.pushN(1).pushN(1).op(0x55) },
+		"sstore-0":       func(c *code) { c.pushN(0).pushN(1).op(0x55) },
+		"mstore-far":     func(c *code) { c.pushN(7).pushN(0x900).op(0x52) },
+	}
+	obsv := map[string]act{
+		"rdsize":             func(c *code) { c.op(0x3d).pushN(0x800).op(0x52) },
+		"rdcopy32":           func(c *code) { c.pushN(32).pushN(0).pushN(0x820).op(0x3e) },
+		"rdcopy1":            func(c *code) { c.pushN(1).pushN(0).pushN(0x820).op(0x3e) },
+		"msize":              func(c *code) { c.op(0x59).pushN(0x800).op(0x52) },
+		"call-v1-nx":         call(0xf1, NX, 1, -1),
+		"call-v1-fresh":      call(0xf1, fresh, 1, -1),
+		"call-v1-pre4":       call(0xf1, pre, 1, -1),
+		"call-v1-pre2":       call(0xf1, pre2, 1, -1),
+		"callcode-v1-fresh":  call(0xf2, fresh, 1, -1),
+		"call-v0-fresh":      call(0xf1, fresh, 0, -1),
+		"balance-fresh":      func(c *code) { c.pushAddr(fresh).op(0x31).pushN(0x800).op(0x52) },
+		"exthash-fresh":      func(c *code) { c.pushAddr(fresh).op(0x3f).pushN(0x800).op(0x52) },
+		"extsize-pre4":       func(c *code) { c.pushAddr(pre).op(0x3b).pushN(0x800).op(0x52) },
+		"sload-1":            func(c *code) { c.pushN(1).op(0x54).pushN(0x800).op(0x52) },
+		"sstore-2":           func(c *code) { c.pushN(2).pushN(1).op(0x55) },
+		"sstore-0":           func(c *code) { c.pushN(0).pushN(1).op(0x55) },
+		"selfdestruct-fresh": func(c *code) { c.pushAddr(fresh).op(0xff) },
+		"create-after":       create(0xf0, icOK, 0),
+	}
+	sk := make([]string, 0, len(setters))
+	for k := range setters {
+		sk = append(sk, k)
+	}
+	ok := make([]string, 0, len(obsv))
+	for k := range obsv {
+		ok = append(ok, k)
+	}
+	sortStrings(sk)
+	sortStrings(ok)
+	var out []*Program
+	for _, s1 := range sk {
+		for _, o := range ok {
+			c := &code{}
+			setters[s1](c)
+			obsv[o](c)
+			c.pushN(0x860).pushN(0).op(0xf3)
+			p := base("pair:"+s1+"+"+o, c.b)
+			p.Storage[CA] = map[common.Hash]common.Hash{common.BigToHash(big.NewInt(1)): common.BigToHash(big.NewInt(1))}
+			out = append(out, p)
+		}
+	}
+	return out
+}
+
+func sortStrings(l []string) {
+	for i := 1; i < len(l); i++ {
+		for j := i; j > 0 && l[j] < l[j-1]; j-- {
+			l[j], l[j-1] = l[j-1], l[j]
+		}
+	}
+}
+
+// nestPrograms: call chains A -> B -> C where every frame logs and then ends in every way, over the call kinds:
+// what a failing ancestor does to the effects and logs of succeeding descendants (and tracers that post-process them).
+func nestPrograms() []*Program {
+	ends := map[string][]byte{"stop": {0x00}, "revert": {0x60, 0x00, 0x60, 0x00, 0xfd}, "invalid": {0xfe}, "return": {0x60, 0x20, 0x60, 0x00, 0xf3}}
+	en := []string{"stop", "revert", "invalid", "return"}
+	kinds := []byte{0xf1, 0xf4, 0xfa, 0xf2}
+	var out []*Program
+	frame := func(logTopic uint64, next *common.Address, kind byte, end string) []byte {
+		c := &code{}
+		c.pushN(logTopic).pushN(0).op(0x52).pushN(logTopic).pushN(32).pushN(0).op(0xa1) // LOG1
+		c.pushN(logTopic).pushN(logTopic).op(0x55)
+		if next != nil {
+			c.pushN(32).pushN(0x40).pushN(0).pushN(0)
+			if kind == 0xf1 || kind == 0xf2 {
+				c.pushN(0)
+			}
+			c.pushAddr(*next).op(0x5a, kind, 0x50)
+			c.pushN(logTopic + 100).pushN(32).pushN(0).op(0xa1) // a log after the call, too
+		}
+		c.op(ends[end]...)
+		return c.b
+	}
+	for _, k1 := range kinds {
+		for _, k2 := range kinds[:3] {
+			for _, e1 := range en {
+				for _, e2 := range en {
+					for _, e3 := range []string{"stop", "revert"} {
+						b, cc := CB, CC
+						p := base(fmt.Sprintf("nest:%x-%x:%s/%s/%s", k1, k2, e1, e2, e3), frame(1, &b, k1, e1))
+						p.Contracts[CB] = Sanitize(frame(2, &cc, k2, e2))
+						p.Contracts[CC] = Sanitize(frame(3, nil, 0, e3))
+						out = append(out, p)
+					}
 				}
 			}
 		}
